@@ -2,14 +2,15 @@ package main
 
 import (
 	"crypto/sha1"
-	stdjson "encoding/json"
 	"encoding/hex"
+	stdjson "encoding/json"
 	"fmt"
 	"strings"
 
 	schema "github.com/jsightapi/jsight-schema-core"
 	"github.com/jsightapi/jsight-schema-core/kit"
 	"github.com/jsightapi/jsight-schema-core/notations/jschema"
+	"github.com/jsightapi/jsight-schema-core/notations/jschema/ischema"
 	"github.com/jsightapi/jsight-schema-core/notations/regex"
 	"github.com/jsightapi/jsight-schema-core/openapi"
 	"github.com/jsightapi/jsight-schema-core/rules/enum"
@@ -345,5 +346,98 @@ func init() {
 			}
 		}
 		return "check=" + chk + " ex=" + ex
+	}
+}
+
+func init() {
+	// allof <graph ...> || <project spec>: verdict of Check, keys of the root object as the compiled schema,
+	// Example() and the OpenAPI property listing show them
+	handlers["allof"] = func(a []string) string {
+		i := 0
+		for i < len(a) && a[i] != "||" {
+			i++
+		}
+		p, _ := parseProject(a[i+1:])
+		s, err := p.build()
+		if err != nil {
+			return "build=" + err.Error()
+		}
+		c := opCheck(s)
+		chk := "ok"
+		if c != "ok" {
+			m := strings.SplitN(strings.TrimPrefix(c, "err:"), "@", 2)
+			chk = m[0]
+		}
+		if chk != "ok" {
+			return "check=" + chk + " keys=-"
+		}
+		// compiled node tree
+		var inh []string
+		if on, ok := s.Inner.RootNode().(*ischema.ObjectNode); ok {
+			for idx, ch := range on.Children() {
+				k := on.Key(idx)
+				opt := "0"
+				if ischema.IsOptionalNode(ch) {
+					opt = "1"
+				}
+				inh = append(inh, fmt.Sprintf("%s:%s:%s", k.Key, opt, ch.InheritedFrom()))
+			}
+		}
+		// Example keys
+		exk := "?"
+		if r, raw := opExample(s); raw != nil {
+			var ks []string
+			dec := stdjson.NewDecoder(strings.NewReader(string(raw)))
+			depth := 0
+			isKey := false
+			for {
+				t, err := dec.Token()
+				if err != nil {
+					break
+				}
+				if d, ok := t.(stdjson.Delim); ok {
+					if d == '{' || d == '[' {
+						depth++
+						isKey = depth == 1 && d == '{'
+					} else {
+						depth--
+						isKey = depth == 1
+					}
+					continue
+				}
+				if depth == 1 && isKey {
+					ks = append(ks, t.(string))
+					isKey = false
+				} else if depth == 1 {
+					isKey = true
+				}
+			}
+			exk = strings.Join(ks, ",")
+		} else {
+			exk = "err:" + r
+		}
+		// OpenAPI property listing
+		info := guard(func() string {
+			var ks []string
+			for _, si := range openapi.Dereference(s) {
+				if oi, ok := si.(openapi.ObjectInformer); ok {
+					for _, pi := range oi.PropertiesInfos() {
+						o := "0"
+						if pi.Optional() {
+							o = "1"
+						}
+						ks = append(ks, pi.Key()+":"+o)
+					}
+				}
+			}
+			return strings.Join(ks, ",")
+		})
+		dash := func(s string) string {
+			if s == "" {
+				return "-"
+			}
+			return s
+		}
+		return "check=ok keys=" + dash(strings.Join(inh, ",")) + " ex=" + dash(exk) + " info=" + dash(info)
 	}
 }
